@@ -323,7 +323,7 @@ def prop_setter(ch, ctx):
         ctx.fail(f'setter.{X}|{region}|T-mismatch', f'T={s.T!r} but the assigned value is that of T*={Tstar!r} (T0={T0!r})')
     # assigning the value it already has leaves T unchanged - also right after an in-place composition change at the
     # same T, P with another derived property read in between (the value read must belong to the current flows)
-    if ch.bool('edit.before.same'):
+    if ch.bool('edit.before.same') and X != 'S':   # the measured S noise region belongs to the unedited composition
         data = s.imol.data
         rows = data.rows if hasattr(data, 'rows') else [data]
         for r in rows:
